@@ -284,7 +284,8 @@ func stateInAnnotationObjectKey(s *Scanner, c byte) state {
 	case c == s.boundary:
 		s.step = stateEndValue
 
-	case c == ' ':
+	case c == ' ' || (s.boundary == 0 && c == '\t'):
+		// A tab separates a bare key from the colon as well as a space does.
 		s.step = stateInAnnotationObjectKeyAfter
 
 	case c < 0x20 || (c == '"' || bytes.IsNewLine(c)):
@@ -298,7 +299,7 @@ func stateInAnnotationObjectKeyAfter(s *Scanner, c byte) state {
 	case s.boundary == 0 && c == ':':
 		return stateEndValue(s, c)
 
-	case c == ' ':
+	case c == ' ' || c == '\t':
 		return scanContinue
 	}
 	panic(s.newJSchemaError(errs.ErrInvalidCharacterInAnnotationObjectKey, c))
